@@ -30,7 +30,9 @@ def write_if_changed(path: Path, text: str) -> bool:
     path.parent.mkdir(parents=True, exist_ok=True)
     if path.exists() and path.read_text() == text:
         return False
-    path.write_text(text)
+    tmp = path.with_name(f".{path.name}.{os.getpid()}.tmp")  # atomic: concurrent checks share coq/Generated
+    tmp.write_text(text)
+    os.replace(tmp, path)
     return True
 
 
